@@ -209,7 +209,7 @@ func cmdDeterminism(args []string) int {
 			continue
 		}
 		var outs []string
-		for _, gmp := range []string{"1", "4", "16"} {
+		for _, gmp := range []string{"1", "4", "16", "1", "4", "16", "2", "8", "16"} {
 			cmd := exec.Command(self, "dumplog", "-world", w.Name(), "-seed", fmt.Sprint(envSeed()), "-from", "0", "-to", fmt.Sprint(*n))
 			cmd.Env = append(os.Environ(), "GOMAXPROCS="+gmp, "VERIF_FORCE_GOMAXPROCS="+gmp)
 			b, err := cmd.Output()
@@ -219,12 +219,21 @@ func cmdDeterminism(args []string) int {
 			}
 			outs = append(outs, string(b))
 		}
-		if outs[0] != outs[1] || outs[0] != outs[2] {
+		same := true
+		for _, o := range outs[1:] {
+			if o != outs[0] {
+				same = false
+			}
+		}
+		if !same {
 			bad++
 			fmt.Printf("DETERMINISM FAILURE world=%s\n", w.Name())
 			a, b := strings.Split(outs[0], "\n"), strings.Split(outs[1], "\n")
-			if outs[0] == outs[1] {
-				b = strings.Split(outs[2], "\n")
+			for _, o := range outs[1:] {
+				if o != outs[0] {
+					b = strings.Split(o, "\n")
+					break
+				}
 			}
 			for i := range a {
 				if i < len(b) && a[i] != b[i] {
@@ -233,7 +242,7 @@ func cmdDeterminism(args []string) int {
 				}
 			}
 		} else {
-			fmt.Printf("determinism ok world=%s runs=%d x3 processes (GOMAXPROCS 1,4,16)\n", w.Name(), *n)
+			fmt.Printf("determinism ok world=%s runs=%d x9 fresh processes (GOMAXPROCS 1,2,4,8,16)\n", w.Name(), *n)
 		}
 	}
 	if bad > 0 {
